@@ -200,7 +200,9 @@ def cl_facts(cl, f):
     C = 'CallbackListBase'
 
     def link_write(m):
-        return (m[1] == 'assign' and m[3] in ('head', 'tail', 'node', 'beforeNode') and
+        # an assignment whose TARGET is head / tail or some node's previous / next (the names of locals and parameters
+        # do not matter)
+        return (m[1] == 'assign' and
                 any(x in base_names(kids(m[2])[1] if m[2].get('kind') == 'CXXOperatorCallExpr' else kids(m[2])[0])
                     for x in ('head', 'tail', 'previous', 'next')))
     # the private link helpers: member functions that write the links and take no lock themselves (doAppend, doInsert, ...)
@@ -308,11 +310,16 @@ def queue_facts(cl, f):
     ok = True
     for decl, body in one(cl, C, 'doEnqueue'):
         ms = marks(body)
-        tl = first(ms, lambda m: m[1] == 'var' and m[2].get('name') == 'tempList', 'tempList', required=False)
         st = first(ms, is_call('set'), 'set', required=False)
         sp = first(ms, is_call('splice', 'queueList'), 'queueList.splice', required=False)
         if sp is None:
             raise Untranslatable('doEnqueue: queueList.splice not found')
+        # the LOCAL list: the local variable that queueList.splice takes its node from (whatever it is called)
+        spn = [m for m in ms if m[0] == sp][0][2]
+        locals_ = dict((m[2].get('id'), m[0]) for m in ms if m[1] == 'var')
+        srcs = [locals_[(x.get('referencedDecl') or {}).get('id')] for x in walk(spn)
+                if x.get('kind') == 'DeclRefExpr' and (x.get('referencedDecl') or {}).get('id') in locals_]
+        tl = min(srcs) if srcs else None
         later = [m for m in ms if m[0] > sp and (m[1] in ('call:set', 'assign', 'invoke') or m[1] == 'call:emplace_back')]
         ok = ok and None not in (tl, st) and tl < st < sp and not later and not has_try(ms)
     f['eq_enqueue_fills_slot_before_splice'] = ok
@@ -329,11 +336,16 @@ def queue_facts(cl, f):
         for decl, body in one(cl, C, op):
             ms = marks(body)
             g = first(ms, is_var('CounterGuard'), 'CounterGuard', required=False)
-            tl = first(ms, lambda m: m[1] == 'var' and m[2].get('name') == 'tempList' and m[2].get('storageClass') != 'static', 'tempList', required=False)
             take = first(ms, lambda m: (m[1] == 'call:swap' and 'queueList' in base_names(m[2])) or
                          (m[1] == 'call:splice' and 'queueList' in base_names(m[2])), 'take', required=False)
             if take is None:
                 raise Untranslatable('%s: the statement that takes events out of queueList was not found' % op)
+            # the LOCAL list the events are taken into (whatever it is called): a non-static local named in that statement
+            tkn = [m for m in ms if m[0] == take][0][2]
+            locs = dict((m[2].get('id'), m[0]) for m in ms if m[1] == 'var' and m[2].get('storageClass') != 'static')
+            srcs = [locs[(x.get('referencedDecl') or {}).get('id')] for x in walk(tkn)
+                    if x.get('kind') == 'DeclRefExpr' and (x.get('referencedDecl') or {}).get('id') in locs]
+            tl = min(srcs) if srcs else None
             manual = any(m[1] == 'incdec' and m[3] == 'queueEmptyCounter' for m in ms) or \
                 any(m[1] == 'assign' and m[3] == 'queueEmptyCounter' for m in ms)
             ok = ok and None not in (g, tl) and g < take and tl < take and not manual
